@@ -173,6 +173,9 @@ class SymClient(Client):
                 r = env.get(("$retval", d) + _site(x))
                 if r is not None:
                     return r
+                if isinstance(x.func, ast.Name) and (d, x.func.id) in env and not any(isinstance(a, ast.Starred) for a in x.args):
+                    # a callable held in a local (`t(v)` under `for t, v in zip(types, row)`): application of that value
+                    return ("apply", env[(d, x.func.id)], tuple(go(a) for a in x.args) + tuple((k.arg, go(k.value)) for k in x.keywords))
                 fname = ast.unparse(x.func) if isinstance(x.func, (ast.Name, ast.Attribute)) else None
                 if fname is not None and not any(isinstance(a, ast.Starred) for a in x.args) and not self._writes(x, ctx):
                     if isinstance(x.func, ast.Attribute) and fname not in READ_ONLY_MODFUNCS:
@@ -337,6 +340,12 @@ class SymClient(Client):
                 del env[k]
             if site is not None:
                 env[("$retval", d) + site] = ret
+            changed = True
+        elif kind == "store" and isinstance(node, (ast.Tuple, ast.List)):
+            # a tuple target reported as one event (comprehension targets): bind its names one by one
+            for nm in [n for n in ast.walk(node) if isinstance(n, ast.Name)]:
+                t = self._loop_target_term(nm, env, ver, ctx)
+                env[(d, nm.id)] = t if t is not None else ("lv", nm.id, getattr(nm, "lineno", 0), ver)
             changed = True
         elif kind == "store":
             if isinstance(node, ast.Name):
